@@ -1184,7 +1184,7 @@ fn exec_recorded_inner(ctx: &mut Ctx, scn: &StoreScn, rel: &str) -> Option<(Vec<
     if let Some((nth, errno, mode)) = scn.fault {
         fsim::with_fs(ctx.sim, |fs| {
             let base = fs.faultable_seen;
-            fs.fault = Some(fsim::FaultSpec { nth: base + nth, errno, mode: if mode & 0x0f == 1 { fsim::FailMode::ShortThenError } else { fsim::FailMode::Clean }, extra: ((mode >> 4) & 7) as u32, space_only: mode & 0x80 != 0 });
+            fs.fault = Some(fsim::FaultSpec { nth: base + nth, errno, mode: if mode & 0x0f == 1 { fsim::FailMode::ShortThenError } else { fsim::FailMode::Clean }, extra: ((mode >> 4) & 7) as u32, space_only: mode & 0x80 != 0, background_only: mode & 0x08 != 0 });
         });
     }
     let errors_seen = |sim: &Sim| -> usize { fsim::with_fs(sim, |fs| fs.log.iter().filter(|r| r.injected && r.res < 0 && !r.what.ends_with("eintr")).count()) };
@@ -1854,7 +1854,7 @@ pub fn run_fault_one(ctx: &mut Ctx, scn: &StoreScn) {
     fsim::with_fs(ctx.sim, |fs| {
         // mode: low nibble 0 clean / 1 short-then-error; bits 4-6: further failing calls of an
         // episode; bit 7: the episode is a full disk (only writes and creates fail)
-        fs.fault = Some(fsim::FaultSpec { nth, errno, mode: if mode & 0x0f == 1 { fsim::FailMode::ShortThenError } else { fsim::FailMode::Clean }, extra: ((mode >> 4) & 7) as u32, space_only: mode & 0x80 != 0 });
+        fs.fault = Some(fsim::FaultSpec { nth, errno, mode: if mode & 0x0f == 1 { fsim::FailMode::ShortThenError } else { fsim::FailMode::Clean }, extra: ((mode >> 4) & 7) as u32, space_only: mode & 0x80 != 0, background_only: mode & 0x08 != 0 });
         fs.fault_reads = scn.fault_reads;
     });
     let rel = ctx.new_dir("s");
